@@ -31,6 +31,50 @@ TAKES_CACHE = {'hashjoin', 'hashleftjoin', 'hashrightjoin'}
 SQUARES_UP = TAKES_PREFIX          # everything except antijoin / hashantijoin
 
 
+# documented positional order of the public signatures (after the two tables) and the documented defaults
+_OUTER_SIG = ('key', 'lkey', 'rkey', 'missing', 'presorted', 'buffersize', 'tempdir', 'cache', 'lprefix', 'rprefix')
+SIGNATURES = {
+    'join': ('key', 'lkey', 'rkey', 'presorted', 'buffersize', 'tempdir', 'cache', 'lprefix', 'rprefix'),
+    'leftjoin': _OUTER_SIG, 'rightjoin': _OUTER_SIG, 'outerjoin': _OUTER_SIG, 'lookupjoin': _OUTER_SIG,
+    'antijoin': ('key', 'lkey', 'rkey', 'presorted', 'buffersize', 'tempdir', 'cache'),
+    'hashjoin': ('key', 'lkey', 'rkey', 'cache', 'lprefix', 'rprefix', 'missing'),
+    'hashleftjoin': ('key', 'lkey', 'rkey', 'missing', 'cache', 'lprefix', 'rprefix'),
+    'hashrightjoin': ('key', 'lkey', 'rkey', 'missing', 'cache', 'lprefix', 'rprefix'),
+    'hashantijoin': ('key', 'lkey', 'rkey'),
+    'hashlookupjoin': ('key', 'lkey', 'rkey', 'missing', 'lprefix', 'rprefix'),
+}
+DEFAULTS = {'key': None, 'lkey': None, 'rkey': None, 'missing': None, 'presorted': False, 'buffersize': None,
+            'tempdir': None, 'cache': True, 'lprefix': None, 'rprefix': None}
+CALL_STYLES = ('positional', 'method', 'method-positional')
+
+
+def positional(op, kw):
+    """The documented arguments of `op` as a positional list: everything up to the last argument given in kw,
+    arguments not given take their documented default."""
+    sig = SIGNATURES[op]
+    given = [i for i, a in enumerate(sig) if a in kw]
+    unknown = [a for a in kw if a not in sig]
+    if unknown:
+        raise TypeError('%s has no argument %r' % (op, unknown))
+    if not given:
+        return []
+    return [kw.get(a, DEFAULTS[a]) for a in sig[:max(given) + 1]]
+
+
+def invoke(etl, op, left, right, kw):
+    """Call the public operator `op` of module `etl` in the call style kw['_call'] (None: function syntax with
+    keyword arguments; 'positional'; 'method' = wrapped-table method with keywords; 'method-positional')."""
+    style = kw.get('_call')
+    kw = dict((k, v) for k, v in kw.items() if k != '_call')
+    if style is None:
+        return getattr(etl, op)(left, right, **kw)
+    pos = positional(op, kw) if 'positional' in style else []
+    rest = {} if 'positional' in style else kw
+    if style.startswith('method'):
+        return getattr(etl.wrap(left), op)(right, *pos, **rest)
+    return getattr(etl, op)(left, right, *pos, **rest)
+
+
 # ---------------------------------------------------------------------------------------------
 # canonical (type-faithful) form of cells / rows, so that 1, 1.0 and True are told apart
 # ---------------------------------------------------------------------------------------------
@@ -425,6 +469,13 @@ def pair_space(tier, seed):
     V['buffersize'] = dict(L=_rect(('k', 'lid'), [0], key_tuples(K3, 2), 'L'),
                            R=_rect(('k', 'rid'), [0], key_tuples(K3, 3), 'R'),
                            kw=[{'key': 'k', 'buffersize': b} for b in (1, 2, 3)])
+    # CALL STYLE: the documented arguments given POSITIONALLY in the documented order, and the method syntax of
+    # wrapped tables, on unsorted inputs with unmatched rows and a non-None missing
+    cs = key_tuples(spaces.K4(seed), 2)
+    bases = [{'key': 'k', 'missing': MISS}, {'key': 'k', 'missing': MISS, 'lprefix': 'l_', 'rprefix': 'r_'},
+             {'lkey': 'k', 'rkey': 'k', 'missing': MISS}]
+    V['call-styles'] = dict(L=_rect(('k', 'lid'), [0], cs, 'L'), R=_rect(('k', 'rid'), [0], cs, 'R'),
+                            kw=[dict(b, _call=st) for b in bases for st in CALL_STYLES])
     # tuple-VALUED cells in a SINGLE key field (hashable, legal: e.g. a (year, week) period): one-element,
     # two-element, None-containing and empty tuples next to None / numbers / text; ordered element-wise
     KT = spaces.K4(seed) + [(r['i1'],), (r['i1'], r['i2']), (None, r['s1']), ()]
